@@ -214,6 +214,13 @@ func vc04lVerify(rep *vh.Report, file []byte, items uint, fs uint64, kvs []vc04l
 			rep.Fail("reader-panic", fmt.Sprintf("key %s: %s", vc04lShort(x.K), m), vc04lDescribe(items, fs, kvs, note))
 		}
 	}
+	// the same keys through the other conforming readers (c04r_test.go): EOF together with a full read at the end of
+	// the data, a section reader at an offset, Prefetch(true), one transient read error at every position of the trace
+	rkvs := make([]vc04rKV, len(kvs))
+	for i, x := range kvs {
+		rkvs[i] = vc04rKV{x.K, x.V}
+	}
+	vc04rCheckReaders(rep, vc04lSeed(), file, rkvs, vc04raOpen, vc04lDescribe(items, fs, kvs, note))
 	return db
 }
 
@@ -311,7 +318,7 @@ func TestVerif_C04(t *testing.T) {
 	rng := vh.NewRng(vc04lSeed() + 1000)
 	thorough := vh.Thorough()
 	rep := vh.NewReport("C04", vc04lPart,
-		"legacy format: random + directed key sets through the real NewBuilder/Insert/Seal/Open/Lookup; oracle: every inserted key returns its value, header read back, seal twice and all insertion orders byte-identical, duplicate / over-long keys give an error; non-trivial: >= 2 keys; distinct by (declared, file size, key bytes)")
+		"legacy format: random + directed key sets through the real NewBuilder/Insert/Seal/Open/Lookup; oracle: every inserted key returns its value, header read back, seal twice and all insertion orders byte-identical, duplicate / over-long keys give an error; every verified file is also read through EOF-with-full-read, offset-section, prefetching and transiently failing readers; the same inserts sealed repeatedly under GOMAXPROCS 1/2/3/16 are byte-identical; builders sealing at the same time give the files they give alone; non-trivial: >= 2 keys; distinct by (declared, file size, key bytes)")
 	cases := vh.NewCases("cases_c04_"+vc04lPart, []string{"YF.C04_Check"}, "case", "check")
 	fsChoices := []uint64{0, 255, 256, 65535, 65536, 1 << 24, 1<<40 - 1, 1 << 56, ^uint64(0)}
 	key := func(items uint, fs uint64, kvs []vc04lKV) string {
@@ -511,6 +518,22 @@ func TestVerif_C04(t *testing.T) {
 		if i < 2 {
 			cases.Add(vc04lCoqBuild(items, fs, kvs, out.Class))
 		}
+	}
+
+	// F. seal determinism: the same inserts sealed 5..7 times under each of GOMAXPROCS 1/2/3/16 (1, 2, 3, 8, 12..14 buckets)
+	vc04rSealDeterminism(rep, vc04lSeed(), vc04raAdapter(), thorough)
+
+	// G. builders sealing at the same time (full buckets) must each give the file the same build gives alone
+	{
+		sizes, rounds := []int{20000, 12000, 10000}, 2
+		if thorough {
+			sizes, rounds = []int{30000, 20000, 25000, 10000}, 8
+		}
+		ads := make([]vc04rAdapter, len(sizes))
+		for i := range ads {
+			ads[i] = vc04raAdapter()
+		}
+		vc04rConcurrentBuilders(rep, vc04lSeed(), ads, sizes, rounds, []int{16, 2})
 	}
 
 	vc04lWideProbe(rep)
